@@ -10,7 +10,9 @@ MANIFEST = dict(
          "values an uninterpreted function of (node, index, values read from the predecessors' results when the node "
          "is started), any two asynchronous runs (any oracles, any max_concurrent) and the sequential run that end "
          "by themselves without failures produce, for every node, exactly the outputs of the reference evaluation "
-         "in dependency order (C17_reference_equation characterises it). What the model cannot exhibit: the real "
+         "in dependency order (C17_reference_equation characterises it); C17_confluence_total removes the "
+         "'end by themselves' hypothesis (every node >= 1 job, max_concurrent >= 1, fuel >= |jobs|+1: both loops "
+         "terminate for every oracle). What the model cannot exhibit: the real "
          "process pool's timing, cloudpickle transport of jobs and results between processes, file-system latency — "
          "these are covered only by the correspondence run: generated workflows executed with the debug worker, the "
          "controlled fake worker (several oracles, k) and the cf worker with 1-8 processes and several "
